@@ -37,8 +37,9 @@ fn line_matches(expected: &str, actual: &str) -> bool {
 }
 
 pub struct DiffCfg {
-    /// discard programs that create more than 8 distinct ranges (range equality is identity plus an
-    /// 8-entry cache in yarel); switch off for programs that never compare ranges
+    /// discard programs that create more than 8 distinct ranges and compare two range objects (range
+    /// equality is identity plus an 8-entry cache in yarel); programs that only iterate over, slice
+    /// with or print their ranges are kept however many they build
     pub range_identity_matters: bool,
     pub compare_trace: bool,
     pub gc: GcCfg,
@@ -109,7 +110,7 @@ pub fn compare_outcome(r: &RefOutcome, o: &Outcome, cfg: &DiffCfg) -> DiffVerdic
     if o.fuel_exhausted {
         return DiffVerdict::Discard("yarel instruction fuel");
     }
-    if cfg.range_identity_matters && r.distinct_ranges > 8 {
+    if cfg.range_identity_matters && r.distinct_ranges > 8 && r.range_identity_observed {
         return DiffVerdict::Discard("more than 8 distinct ranges");
     }
     if let End::Err(_, msgs) = &o.end {
